@@ -225,11 +225,28 @@ struct FilesEngine : Engine {
 			bounds.push_back(h2 + 44 + ntr * 8);
 			bounds.push_back(h2 + 44 + ntr * 9);
 			bounds.push_back(h2 + 44 + ntr * 9 + nty * 6);
+			/* where the tables would end were the stamps 4 bytes wide */
+			bounds.push_back(h2 + 44 + ntr * 4);
+			bounds.push_back(h2 + 44 + ntr * 5);
+			bounds.push_back(h2 + 44 + ntr * 5 + nty * 6);
 		} else {
 			size_t ntr = cnt(0, 3), nty = cnt(0, 4);
 			bounds.push_back(44 + ntr * 4);
 			bounds.push_back(44 + ntr * 5);
 			bounds.push_back(44 + ntr * 5 + nty * 6);
+		}
+		if (h2 && r.chance(1, 12)) {
+			/* the two headers disagree about the version, and the file ends where the narrower layout would */
+			size_t ntr = cnt(h2, 3), nty = cnt(h2, 4);
+			Op a, b;
+			a.kind = "set8";
+			a.a = {(int64_t)((r.chance(1, 2) ? h2 : 0) + 4), r.chance(1, 2) ? 0 : (r.chance(1, 2) ? '2' : '3')};
+			b.kind = "trunc";
+			b.a = {(int64_t)(h2 + 44 + ntr * 5 + nty * 6 + (size_t)r.range(0, 3))};
+			p.ops.push_back(a);
+			if (r.chance(3, 4))
+				p.ops.push_back(b);
+			return;
 		}
 		size_t nf = (size_t)r.range(1, 4);
 		for (size_t i = 0; i < nf; i++) {
